@@ -241,6 +241,32 @@ pub fn check_input(alg: Algorithm, old8: &[u8], new8: &[u8], deep: bool) -> Resu
             }
         }
         if deep {
+            // the same expiry point on a sub-range embedding read through a window Index: the
+            // fallback paths must report absolute positions and stay inside the ranges too
+            let (po, pn) = (3usize, 5usize);
+            let fo = embed(old8, po, 2, new8);
+            let fnw = embed(new8, pn, 2, old8);
+            let (fo, fnw) = (cnt(&fo), cnt(&fnw));
+            let mut rec = Rec::new();
+            let sub = subject(|| {
+                let _clock = arm_clock(k);
+                let wo = crate::instr::Win { data: &fo, lo: po, hi: po + n };
+                let wn = crate::instr::Win { data: &fnw, lo: pn, hi: pn + m };
+                raw_into(alg, 1, &mut rec, &wo, po..po + n, &wn, pn..pn + m, some_deadline())
+            });
+            runs += 1;
+            match sub {
+                Err(p) => return Err(format!("expiry at probe {} on sub-ranges old {:?} new {:?}: panic: {}", k, po..po + n, pn..pn + m, p)),
+                Ok(Err(e)) => return Err(format!("expiry at probe {} on sub-ranges: diff returned Err({})", k, e)),
+                Ok(Ok(())) => {}
+            }
+            let want: Vec<Call> = r.calls.iter().map(|c| c.shifted(po, pn)).collect();
+            if rec.calls != want {
+                return Err(format!(
+                    "expiry at probe {}: on sub-ranges old {:?} new {:?} the stream is [{}], but the stream on the extracted slices shifted by the range starts is [{}]",
+                    k, po..po + n, pn..pn + m, calls_to_string(&rec.calls), calls_to_string(&want)
+                ));
+            }
             for entry in [3usize, 4] {
                 let r2 = raw_deadline(alg, entry, &old, &new, Some(k), true)
                     .map_err(|e| format!("entry {} expiry at probe {}: {}", entry, k, e))?;
